@@ -292,7 +292,11 @@ class Impl(object):
             fut = self.pending[cid].pop(i)
             self.current = cid
             nexc = len(self.loop.exceptions)
-            if r[0] == 'missing':
+            if fut.done():
+                # the broker cancelled (or otherwise settled) the store's future itself: the store's answer has nowhere
+                # to go.  Not harness trouble - the event is recorded and the monitors judge what follows
+                self.tr[cid]._rec('lookup-already-settled')
+            elif r[0] == 'missing':
                 fut.set_result(None)
             elif r[0] == 'raised':
                 fut.set_exception(RuntimeError('store failure'))
@@ -754,7 +758,14 @@ def run_script(script, drv, res, want_model=True):
         viol.append((set(props), rule, what, key))
 
     try:
+        eff_events = []
         for idx, ev in enumerate(script['events']):
+            if ev[0] == 'data_if_reading':
+                # a hand-written history may ask for bytes to be delivered only IF the transport is reading at that
+                # point (a real transport delivers nothing while reading is paused): which it is depends on the tree
+                t_ = impl.tr.get(ev[1])
+                ev = ['data', ev[1], ev[2]] if (t_ is not None and not t_.paused and not t_.closing and not t_.gone) else ['advance', 0]
+            eff_events.append(ev)
             marks = {cid: len(t.log) for cid, t in impl.tr.items()}
             closing_before = {cid: t.closing for cid, t in impl.tr.items()}
             now_before = impl.loop.ms
@@ -894,7 +905,7 @@ def run_script(script, drv, res, want_model=True):
         res.note('monitor-only.no-peername')
         want_model = False
     if drv is not None and want_model:
-        lines, kinds = model_lines(script, labels, chans)
+        lines, kinds = model_lines(dict(script, events=eff_events + script['events'][len(eff_events):]), labels, chans)
         ans = drv.ask_many(lines)
         body0 = ans[2 + len(cfg['rows']):]
         it = iter(body0)
@@ -1227,6 +1238,7 @@ class Gen(object):
 def gen_script(rng, tier, profile):
     force_wfault = profile.endswith('+wfault')
     force_nopeer = profile.endswith('+nopeer')
+    force_stall = profile.endswith('+stall')     # back-pressure episodes while credential look-ups are in flight
     profile = profile.split('+')[0]
     mode = 'async' if profile == 'async' or (profile in ('adversary', 'loss') and rng.random() < 0.25) else 'sync'
     cfg = mk_cfg(rng, mode, profile)
@@ -1318,7 +1330,7 @@ def gen_script(rng, tier, profile):
                     else:
                         do(['lost', cid])
                     continue
-            ws = {'stall': 0.35}.get(profile, 0.04)
+            ws = 0.22 if force_stall else {'stall': 0.35}.get(profile, 0.04)
             if r < 0.15 + wl + ws and impl.tr:
                 cands = [cid for cid, t in impl.tr.items() if not t.gone and cid not in quiet]
                 if cands:
@@ -1611,7 +1623,7 @@ PROFILES = {
     'C08': ['subs', 'reauth', 'gauges', 'subs'],
     'C09': ['loss', 'window', 'gauges', 'async', 'fanout', 'loss+nopeer'],
     'C10': ['adversary', 'window', 'loss', 'stall', 'adversary', 'fanout+wfault', 'window+nopeer', 'adversary+nopeer'],
-    'C14': ['async'],
+    'C14': ['async', 'async', 'async+stall'],
     'C15': ['stall', 'stall', 'fanout'],
     'C19': ['gauges', 'reauth', 'loss', 'subs', 'gauges', 'gauges+nopeer'],
 }
